@@ -190,7 +190,7 @@ def run(index, rep, tier):
     # ---- R07.4 merge semantics at the splice-out sites reached by re-seeding
     with rep.section("R07.4 merge semantics"):
         from . import c08
-        for q in (TREE + ".suppress_unifurcations", TREE + ".encode_bipartitions"):
+        for q in (TREE + ".suppress_unifurcations", TREE + ".encode_bipartitions", TREE + ".collapse_basal_bifurcation"):
             fi = index.function(q)
             res = c08.merge_semantics(fi)
             if res is None:
@@ -260,13 +260,19 @@ def run(index, rep, tier):
         rep.check(ok, "R07.6", fi.qualname, "edge length swap", fn_where(fi, swaps[0] if swaps else None), "Edge.invert swaps the lengths of the two edges",
                   "Edge.invert's length assignment is not a swap of the two edges' lengths: re-seeding changes path lengths")
         fi = index.function(TREE + ".collapse_basal_bifurcation")
-        aug = [n for n in walk_no_nested(fi.node) if isinstance(n, ast.AugAssign) and isinstance(n.op, ast.Add) and norm(n.target).endswith("edge.length")]
+        from . import c08 as _c08
+        res = _c08.merge_semantics(fi)
         cfg = cfg_of(fi)
         col = [n for n in cfg.nodes if any(call_name(c) == "collapse" for c in node_calls(n))]
-        ok = len(aug) == 1 and bool(col) and "to_keep" in norm(aug[0].target) and "to_del" in norm(aug[0].value) and \
-            all(cfg.dominated_by(cn, lambda n: n.stmt is aug[0] or (n.kind == "handler")) for cn in col)
-        rep.check(ok, "R07.6", fi.qualname, "sibling absorbs the deleted basal edge", fn_where(fi), "collapse_basal_bifurcation adds the deleted edge's length to the kept sibling before collapsing",
-                  "collapse_basal_bifurcation no longer adds the deleted basal edge's length to its sibling before collapsing: path lengths across the old root change")
+        ok = res is not None and bool(col)
+        if ok:
+            frag = res[0]
+            fn_ = [n for n in cfg.nodes if n.stmt is frag or any(n.stmt is x for x in ast.walk(frag))]
+            ids = {n.id for n in fn_}
+            # the merge happens before the collapse on every path (the table of what it does is checked by R07.4)
+            ok = bool(ids) and all(cfg.dominated_by(cn, lambda n: n.id in ids, follow_exc=False) for cn in col)
+        rep.check(ok, "R07.6", fi.qualname, "sibling absorbs the deleted basal edge", fn_where(fi), "collapse_basal_bifurcation merges the deleted edge's length into the kept sibling before collapsing",
+                  "collapse_basal_bifurcation no longer merges the deleted basal edge's length into its sibling before collapsing: path lengths across the old root change")
 
 
 def pm_target(fi, call):
